@@ -22,9 +22,10 @@ def scope_gate(prog):
             continue
         for n in ast.walk(g.node):
             if isinstance(n, ast.Raise) and n.exc is not None:
-                c = n.exc.func if isinstance(n.exc, ast.Call) else n.exc
-                if prog.resolve(g.module, c) == POLICY + '.InvalidScope':
-                    raisers[g.qual] = g
+                from .util import raised_class_exprs
+                for c in raised_class_exprs(g.node, n):
+                    if prog.resolve(g.module, c) == POLICY + '.InvalidScope':
+                        raisers[g.qual] = g
     if len(raisers) == 1:
         return list(raisers.values())[0]
     hits = {}
